@@ -21,7 +21,10 @@ def kname(k):
 def execute(case):
     idx, kind, score, i, key = case
     # every fifth sequence case: the score played twice by concatenating one object with itself (shared Message objects)
-    seq = doubled(score, via(idx)) if (kind == "seq" and idx % 5 == 4) else build(score, via(idx))
+    if "rel" in score:
+        seq = P.seq_from_rel(score["rel"])        # a raw relative list (re-strikes before release, not normalised)
+    else:
+        seq = doubled(score, via(idx)) if (kind == "seq" and idx % 5 == 4) else build(score, via(idx))
     line = {"kind": kind, "i": i, "kin": "", "kout": "", "flag": False,
             "back": {"done": False, "rel": [], "flag": False}, "case": {"kind": kind, "score": score, "i": i, "key": key}}
     try:
@@ -106,6 +109,12 @@ def run(ctx):
                 continue
             kind = ctx.rng.choice(["seq", "bar"])
             cases.append((len(cases), kind, sc, iv, ctx.rng.choice(BAR_KEYS) if kind == "bar" else None))
+    if not ctx.replay:
+        alpha = [P.on(-1, 0, 60, 80), P.on(-1, 0, 60, 60), P.off(-1, 0, 60), P.on(-1, 0, 67, 70), P.off(-1, 0, 67), P.wait(12), P.wait(24),
+                 P.on(-1, 1, 60, 50), P.off(-1, 1, 60)]
+        for _ in range(6000 if ctx.thorough else 800):
+            rel = [dict(ctx.rng.choice(alpha)) for _ in range(ctx.rng.randint(3, 10))]
+            cases.append((len(cases), "seq", {"rel": rel}, ctx.rng.choice([1, -1, 2, 5, -7, 12, 30]), None))
     if ctx.fixtures and not ctx.replay:
         from harness import fixtures
         for sc in fixtures.slices("quantised"):
